@@ -24,11 +24,13 @@ optimisations and well-meant extra checks whose flaw needs a particular interlea
 multi-step sequence, unusual input or two cooperating code sites; in round 7 for small edits to existing lines; in round 8
 for both kinds; in round 9 the agents were also told what kind of campaign the change has to slip through; in round 10 they were
 asked for changes a real maintainer could plausibly make and a reviewer accept (no contrived machinery), which is the round
-that says most about ordinary use: 23 of 24 were caught by the committed state. Every change was confirmed here with
+that says most about ordinary use: 23 of 24 were caught by the committed state; round 11 (three changes, one each for C04, C15
+and C16, written after the last change to the checks) was run against the final state with nothing strengthened afterwards:
+all three were caught. Every change was confirmed here with
 `tools/confirmseed` (patch applies to HEAD; builds; existing tests pass with it; demonstration passes
 without and fails with it) before it was kept under `seeded/<id>/` (`patch.diff`, `demo_test.go.txt`,
 the agent's `README.md`, `meta.json`). The checks were run against each change in a scratch copy of
-`/repo` (`tools/tryseed`, `VERIF_REPO`); `/repo` itself was never modified. Rounds 2 to 10 were first
+`/repo` (`tools/tryseed`, `VERIF_REPO`); `/repo` itself was never modified. Rounds 2 to 11 were first
 run against the committed state *before* any strengthening (a `vp run` snapshot), so "caught at first"
 is an honest measure of what the machinery detected unprompted: %s.
 Every miss was analysed, the generators or the attribution of notes were strengthened (never a verdict
